@@ -1445,9 +1445,20 @@ impl RaftNode {
         config: RaftConfig,
         wal_path: impl AsRef<std::path::Path>,
     ) -> std::io::Result<Self> {
-        use crate::raft_wal::{RaftRecoveryState, RaftWal};
+        use crate::raft_wal::{RaftRecoveryState, RaftWal, WalConfig};
 
-        let wal = RaftWal::open(wal_path)?;
+        // Recovery reads the live WAL file only, and nothing snapshots or compacts
+        // the WAL: a segment rotated away at the size limit would take the node's
+        // term, its vote and its log with it (a restart would come back in an
+        // older term and could vote twice). Keep everything in one file.
+        let wal = RaftWal::open_with_config(
+            wal_path,
+            WalConfig {
+                auto_rotate: false,
+                max_size_bytes: u64::MAX,
+                ..WalConfig::default()
+            },
+        )?;
         let recovery = RaftRecoveryState::from_wal(&wal)?;
 
         let recovered_log: Vec<LogEntry> = recovery
